@@ -171,13 +171,30 @@ def fp_hash(fp):
 # --------------------------------------------------------------------------
 # requests
 
+class BytesPool(object):
+    """Name every distinct byte string once in the generated Coq text."""
+
+    def __init__(self):
+        self.names = {}
+
+    def ref(self, b):
+        b = bytes(b)
+        if b not in self.names:
+            self.names[b] = 'bs%d' % len(self.names)
+        return common.Raw(self.names[b])
+
+    def definitions(self):
+        return ''.join('Definition %s : bytes := %s.\n' % (n, to_coq(b)) for b, n in self.names.items())
+
+
 def opts_key(o):
     return (o['codec'], bool(o['ne']), repr(o['adbc']), repr(o['enc']))
 
 
-def opts_coq(o):
+def opts_coq(o, pool=None):
+    ref = pool.ref if pool else bytes
     return C('mkOpts', [ord(ch) for ch in o['codec']], bool(o['ne']),
-             repr(o['adbc']).encode('utf-8'), repr(o['enc']).encode('utf-8'))
+             ref(repr(o['adbc']).encode('utf-8')), ref(repr(o['enc']).encode('utf-8')))
 
 
 def call_kwargs(o, cache_dir):
@@ -554,7 +571,8 @@ def run_history(ctx, ops, with_crash=True):
             ctx.count('history:crash-%s:%s' % (op[3], 'killed' if st == ('signal', signal.SIGKILL) else 'no-store'))
             obs.append(None)
             continue
-        r, rec = cached_call(paths, o, cache)
+        # a single file is given as a plain string every other time (compile_files accepts both)
+        r, rec = cached_call(paths[0] if len(paths) == 1 and len(obs) % 2 else paths, o, cache)
         plain = uncached(contents, o) if contents is not None else ('err', 'FileNotFoundError', '')
         obs.append(dict(result=r, lookup=rec.get('lookup'), key=rec.get('key'), contents=contents, opts=o,
                         plain=plain))
@@ -562,7 +580,7 @@ def run_history(ctx, ops, with_crash=True):
     return obs
 
 
-def model_inputs(ops, obs):
+def model_inputs(ops, obs, pool):
     """Coq terms: the table of uncached results and the history."""
     table = []
     ids = {}
@@ -583,15 +601,15 @@ def model_inputs(ops, obs):
         n = len(ids) if plain[0] == 'ok' else -1 - len(ids)
         ids[k] = n
         fps[n] = plain
-        table.append(((contents, opts_coq(o)), n))
+        table.append((([pool.ref(c) for c in contents], opts_coq(o, pool)), n))
     h = []
     for op in ops:
         if op[0] == 'edit':
-            h.append(C('OEdit', op[1], op[2]))
+            h.append(C('OEdit', op[1], pool.ref(op[2])))
         elif op[0] == 'compile':
-            h.append(C('OCompile', list(op[1]), opts_coq(op[2])))
+            h.append(C('OCompile', list(op[1]), opts_coq(op[2], pool)))
         else:
-            h.append(C('OCrash', list(op[1]), opts_coq(op[2]),
+            h.append(C('OCrash', list(op[1]), opts_coq(op[2], pool),
                        C('BeforeCommit') if op[3] == 'before' else C('AfterCommit')))
     return table, h, fps
 
@@ -662,8 +680,9 @@ def histories(ctx, n, nops, translated):
     # correspondence with the Coq model: hit/miss and identity of the returned Specification
     cases = []
     fpss = []
+    pool = BytesPool()
     for ops, obs in zip(all_ops, all_obs):
-        table, h, fps = model_inputs(ops, obs)
+        table, h, fps = model_inputs(ops, obs, pool)
         cases.append((table, h))
         fpss.append(fps)
     # ... and of the key bytes handed to diskcache
@@ -684,12 +703,15 @@ def histories(ctx, n, nops, translated):
                 real_z = real            # printed as a hex literal
             else:
                 real_z = [-3]
-            kc.append(((ob['contents'], opts_coq(ob['opts'])), real_z, ob))
-    body = ('Definition cases : list (table * list (@op bytes bytes Z)) := %s.\n'
+            kc.append((([pool.ref(c) for c in ob['contents']], opts_coq(ob['opts'], pool)), real_z, ob))
+    if ctx.quick and len(kc) > 40:
+        kc = rng.sample(kc, 40)
+    body = ('%s'
+            'Definition cases : list (table * list (@op bytes bytes Z)) := %s.\n'
             'Eval vm_compute in map (fun c => run_codes (fst c) (snd c)) cases.\n'
             'Definition kcases : list ((list bytes * sopts) * list Z) := %s.\n'
             'Eval vm_compute in mismatches zlist_eqb key_code kcases.\n'
-            % (to_coq(cases), to_coq([(x, y) for x, y, _ in kc])))
+            % (pool.definitions(), to_coq(cases), to_coq([(x, y) for x, y, _ in kc])))
     preds, badk = ctx.coq_eval('hist', IMPORTS, body)
     ctx.log('model evaluated on the histories and keys (%d kB of Coq text)' % (len(body) // 1000))
     bad = 0
@@ -1100,12 +1122,12 @@ def run(ctx):
     if ctx.quick:
         histories(ctx, budget(8), 24, translated)
     else:
-        histories(ctx, 100, 40, translated)
+        histories(ctx, 60, 40, translated)
     ctx.log('histories done')
     # 5. faults
-    kill_runs(ctx, budget(16) if ctx.quick else 200)
+    kill_runs(ctx, budget(16) if ctx.quick else 160)
     ctx.log('SIGKILL runs done')
-    corruption_runs(ctx, 2 if ctx.quick else 10, budget(20) if ctx.quick else 80, findings)
+    corruption_runs(ctx, 2 if ctx.quick else 8, budget(20) if ctx.quick else 70, findings)
     ctx.log('corruption runs done')
     ctx.extra['open_theorems'] = []
     ctx.extra['refuted'] = ['C17_silent_alteration_refuted (known finding C17-pickle-no-integrity)',
